@@ -1051,6 +1051,497 @@ def torn_fixed():
     return out
 
 
+# ---------------------------------------------------------------------------------- (g) out-of-order histories of the sender
+#
+# Class: the forwarder has received OTHER frames of the packet's source before the GBC/GAC packet - beacons, SHBs, other
+# GBC/GAC packets - with position vectors that are OLDER, EQUAL in time or NEWER than the one in the packet's header
+# (a multi-hop packet delayed on a longer path arrives after a newer beacon), the station having moved across the area
+# border in between.  Annex C.2 keeps the newest vector in the location table; Annex D's PV_SE is the table's vector.
+# Oracle (independent of the code): fold the timestamps (strictly newer replaces), Annex D on the vector that survives.
+# Lean: Props.C07.annexD_on_table_vector (all histories), header_vector_witness, annexD_sender_vector_from_location_table_of_source.
+
+EV_TYPES = ("shb", "beacon", "gbc", "gac")
+
+
+def rx_on(B, llB, inds, pkt):
+    """one reception on a prepared router: (actions, error name)"""
+    llB.take()
+    del inds[:]
+    greedy = []
+    orig = B.gn_greedy_forwarding
+
+    def spy(*a, **k):
+        r = orig(*a, **k)
+        greedy.append(r)
+        return r
+    B.gn_greedy_forwarding = spy
+    try:
+        B.gn_data_indicate(pkt)
+        err = None
+    except Exception as e:  # noqa: BLE001
+        err = type(e).__name__
+    finally:
+        del B.gn_greedy_forwarding
+    sent = llB.take()
+    acts = ["deliver"] * len(inds)
+    for _ in sent:
+        acts.append("fwd-nonarea" if greedy else "fwd-area")
+    return acts, err
+
+
+def _geo_request(c, transport, hop):
+    ht = HeaderType.GEOBROADCAST if transport == "gbc" else HeaderType.GEOANYCAST
+    return GNDataRequest(upper_protocol_entity=CommonNH.BTP_B, data=b"c07", length=3,
+                         packet_transport_type=PacketTransportType(header_type=ht, header_subtype=HST[(transport, c["shape"])]),
+                         area=Area(latitude=c["lat0"], longitude=c["lon0"], a=c["a"], b=c["b"], angle=c["az"]),
+                         max_hop_limit=hop, traffic_class=TrafficClass(scf=False))
+
+
+def history_frames(c):
+    """the frames station S (one real Router, address 1) transmits: one per earlier event, then the packet under test.
+    Each is generated with S's ego vector = (T0 + dt, position, PAI) of the event."""
+    kw = {"itsGnDefaultHopLimit": 1} if c.get("hop", 10) <= 1 else {}
+    S, llS, _ = rs.make_router(1, itsGnMaxGeoAreaSize=10 ** 7, **kw)
+    out = []
+    for ev in c["events"] + [dict(c["pkt"], type=c["transport"])]:
+        S.ego_position_vector = LongPositionVector(gn_addr=S.mib.itsGnLocalGnAddr, tst=TST.set_in_normal_timestamp_milliseconds(T0 + ev["dt"]),
+                                                   latitude=ev["lat"], longitude=ev["lon"], pai=ev["pai"])
+        llS.take()
+        if ev["type"] == "beacon":
+            S.gn_data_request_beacon()
+        elif ev["type"] == "shb":
+            S.gn_data_request(GNDataRequest(upper_protocol_entity=CommonNH.BTP_B, data=b"s", length=1,
+                                            packet_transport_type=PacketTransportType(header_type=HeaderType.TSB,
+                                                                                      header_subtype=TopoBroadcastHST.SINGLE_HOP)))
+        else:
+            S.gn_data_request(_geo_request(c, ev["type"], c.get("hop", 10)))
+        fr = llS.take()
+        if len(fr) != 1:
+            raise Infra(f"history case: station S produced {len(fr)} frames for a {ev['type']} event")
+        out.append(fr[0])
+    return out, S.mib.itsGnLocalGnAddr
+
+
+def history_run(c):
+    """returns (actions of the reception under test, error, vector the real location table holds before that reception
+    or None, the same after it, errors of the earlier receptions)"""
+    frames, s_addr = history_frames(c)
+    B, llB, inds = rs.make_router(2, itsGnMaxGeoAreaSize=10 ** 7, itsGnAreaForwardingAlgorithm=AreaForwardingAlgorithm.SIMPLE)
+    B.ego_position_vector = lpv(B, c["lat"], c["lon"])
+    errs = []
+    for fr in frames[:-1]:
+        try:
+            B.gn_data_indicate(fr)
+        except Exception as e:  # noqa: BLE001
+            errs.append(type(e).__name__)
+
+    def held():
+        e = B.location_table.get_entry(s_addr)
+        pv = e.position_vector if e is not None else None
+        return None if pv is None else (pv.tst.msec, pv.latitude, pv.longitude, bool(pv.pai))
+    before = held()
+    acts, err = rx_on(B, llB, inds, frames[-1])
+    return acts, err, before, held(), errs, frames[-1][3]
+
+
+def history_stored(c):
+    """oracle, annex C.2: index (into events + [pkt]) of the vector the table holds when Annex D is evaluated - the first
+    reception is accepted, afterwards only a strictly newer vector replaces the stored one"""
+    seq = c["events"] + [c["pkt"]]
+    k = 0
+    for i, ev in enumerate(seq):
+        if ev["dt"] > seq[k]["dt"]:
+            k = i
+    return k
+
+
+def history_expect(c, rhl):
+    """(expected actions, description) by the property text for remaining hop limit `rhl` on the wire; None if a deciding
+    point lies in the tolerance band"""
+    seq = c["events"] + [c["pkt"]]
+    k = history_stored(c)
+    st = seq[k]
+    e_in, e_band = _in(c, c["lat"], c["lon"])
+    s_in, s_band = _in(c, st["lat"], st["lon"])
+    h_in, h_band = _in(c, c["pkt"]["lat"], c["pkt"]["lon"])
+    if e_band or s_band or h_band:
+        return None
+    verdict = bool(st["pai"]) and s_in
+    if c["transport"] == "gac":
+        want = ["deliver"] if e_in else ([] if (verdict or rhl <= 1) else ["fwd-nonarea"])
+    else:
+        want = (["deliver"] if e_in else []) + ([] if rhl <= 1 else (["fwd-area"] if e_in else ([] if verdict else ["fwd-nonarea"])))
+    hv = bool(c["pkt"]["pai"]) and h_in
+    desc = (f"{c['transport']} {c['shape']} a={c['a']} b={c['b']} azimuth={c['az']}, forwarder {'inside' if e_in else 'outside'}; received from the "
+            f"source before: [" + ", ".join(f"{ev['type']}@{ev['dt']:+d}ms" for ev in c["events"]) + f"], then the packet generated at "
+            f"{c['pkt']['dt']:+d}ms (header vector: {'inside' if h_in else 'outside'}, PAI={int(c['pkt']['pai'])}); newest vector = the one of "
+            f"{'the packet' if k == len(seq) - 1 else 'reception %d (%s@%+dms)' % (k, st['type'], st['dt'])}: "
+            f"{'inside' if s_in else 'outside'}, PAI={int(st['pai'])}")
+    return want, desc, {"ego_in": e_in, "stored": k, "verdict": verdict, "header_verdict": hv}
+
+
+def check_histories(ctx, cases, jobs=None):
+    lines, recs = [], []
+    for c in cases:
+        acts, err, before, after, errs, rhl = history_run(c)
+        ctx.evals()
+        exp = history_expect(c, rhl)
+        if exp is None:
+            ctx.cover("tolerance_skips")
+            continue
+        want, desc, q = exp
+        tag = dict(c, kind="history")
+        seq = c["events"] + [c["pkt"]]
+        bad = []
+        if err:
+            bad.append(f"receive path raised {err}")
+        if errs:
+            bad.append(f"an earlier reception raised {errs[0]}")
+        if not bad and acts != want:
+            bad.append(f"expected {want or 'no transmission'}, got {acts or 'nothing'}")
+        if bad:
+            ctx.violation(desc + " -> " + "; ".join(bad), tag)
+        n = len(seq)
+        ctx.cover("history_cases")
+        ctx.cover(f"history_receptions_{n}")
+        ctx.cover("history_packet_" + ("newest" if q["stored"] == n - 1 else
+                                       ("tie_with_stored" if seq[q["stored"]]["dt"] == c["pkt"]["dt"] else "older_than_stored")))
+        ctx.cover("history_header_vs_table_" + ("differ" if q["verdict"] != q["header_verdict"] else "agree"))
+        ctx.cover(f"history_{c['transport']}_ego{int(q['ego_in'])}_table{int(q['verdict'])}_header{int(q['header_verdict'])}")
+        for ev in c["events"]:
+            ctx.cover("history_event_" + ev["type"])
+        ctx.nontrivial(("hist", c["transport"], c["shape"], c["a"], c["b"], c["az"], q["ego_in"], q["verdict"], q["header_verdict"], n,
+                        tuple(ev["type"] for ev in c["events"]), q["stored"]))
+        # model (driver op `hist`): which reception's vector the table holds, and the decision on that vector
+        cs = unit_cs(c)
+        bb = c["b"] if c["shape"] != "circle" else max(c["b"], 1)
+        nn, ee = local_ne(c["lat0"], c["lon0"], c["lat"], c["lon"])
+        ln = f"hist {c['transport']} {rhl} {c['shape']} {c['a']} {bb} {rat(cs[0])} {rat(cs[1])} {rat(nn)} {rat(ee)}"
+        for ev in seq:
+            nn, ee = local_ne(c["lat0"], c["lon0"], ev["lat"], ev["lon"])
+            ln += f" {T0 + ev['dt']} {1 if ev['pai'] else 0} {rat(nn)} {rat(ee)}"
+        lines.append(ln)
+        recs.append((tag, acts, after))
+
+    def finish(out):
+        for (tag, acts, after), mo in zip(recs, out):
+            mt = mo.split(" ", 2)
+            if len(mt) != 3 or mt[0] != "1" or not mt[1].isdigit():
+                ctx.mismatch("history.model_line", tag, "unit vector / index", mo)
+                continue
+            st = (tag["events"] + [tag["pkt"]])[int(mt[1])]
+            model_pv = (TST.set_in_normal_timestamp_milliseconds(T0 + st["dt"]).msec, st["lat"], st["lon"], bool(st["pai"]))
+            if after != model_pv:            # the real location table holds another vector than the model's table
+                ctx.mismatch("history.table_vector", tag, after, f"reception {mt[1]}: {model_pv}")
+            if "[" + " ".join(acts) + "]" != mt[2]:
+                ctx.mismatch("history.actions", tag, acts, mo)
+    if recs:
+        ctx.sample("history", {"case": recs[0][0], "actions": recs[0][1], "table_vector": recs[0][2]})
+    _model_jobs(ctx, jobs, lines, finish)
+
+
+def _model_jobs(ctx, jobs, lines, finish):
+    """run (or, when the caller collects several classes into one driver call, queue) the model lines of one class"""
+    if jobs is not None:
+        jobs.append((lines, finish))
+    elif ctx.model_ok and lines:
+        finish(ctx.model("Area", lines))
+
+
+def run_model_jobs(ctx, jobs):
+    lines = [ln for ls, _ in jobs for ln in ls]
+    if ctx.model_ok and lines:
+        out, pos = ctx.model("Area", lines), 0
+        for ls, fin in jobs:
+            fin(out[pos:pos + len(ls)])
+            pos += len(ls)
+
+
+def gen_history(rng):
+    for _ in range(200):
+        shape, a, b, az, lat0, lon0 = gen_area(rng, False)
+        if abs(lat0) > 800000000 or a < 20 or a > 20000 or (shape != "circle" and (b < 20 or b > 20000)):
+            continue
+        c = {"kind": "history", "transport": rng.choice(["gbc", "gac", "gac"]), "shape": shape, "a": a, "b": b, "az": az, "lat0": lat0, "lon0": lon0,
+             "hop": rng.choice([2, 3, 10, 10, 255, 1])}
+
+        def spot(want_in):
+            for _ in range(40):
+                p = _place_somewhere(rng, c)
+                if _in(c, *p) == (want_in, False):
+                    return p
+            return None
+        ego = spot(rng.random() < 0.15)                    # the forwarder: mostly outside (Annex D consults the sender there only)
+        if ego is None:
+            continue
+        c["lat"], c["lon"] = ego
+        evs = []
+        for _ in range(rng.choice([1, 1, 2, 3])):
+            p = spot(rng.random() < 0.5)
+            if p is None:
+                break
+            evs.append({"type": rng.choice(EV_TYPES), "dt": 100 * rng.randrange(-50, 51), "lat": p[0], "lon": p[1], "pai": rng.random() < 0.75})
+        p = spot(rng.random() < 0.5)
+        if not evs or p is None:
+            continue
+        pkt = {"dt": 100 * rng.randrange(-50, 51), "lat": p[0], "lon": p[1], "pai": rng.random() < 0.75}
+        if rng.random() < 0.6:
+            # steer to the class: the packet is NOT strictly newer than the newest earlier reception, and the station was
+            # on the other side of the border then (both with PAI), or had another PAI inside the area
+            k = max(range(len(evs)), key=lambda i: (evs[i]["dt"], -i))
+            pkt["dt"] = evs[k]["dt"] - rng.choice([0, 100, 2000, 2000, 4900])
+            side = rng.random() < 0.5
+            pi, po = spot(True), spot(False)
+            if pi is None or po is None:
+                continue
+            mode = rng.choice(["sides", "sides", "pai"])
+            if mode == "sides":
+                (evs[k]["lat"], evs[k]["lon"]), (pkt["lat"], pkt["lon"]) = (pi, po) if side else (po, pi)
+                evs[k]["pai"] = pkt["pai"] = True
+            else:
+                (evs[k]["lat"], evs[k]["lon"]), (pkt["lat"], pkt["lon"]) = pi, spot(True) or pi
+                evs[k]["pai"], pkt["pai"] = side, not side
+        c["events"], c["pkt"] = evs, pkt
+        return c
+    return None
+
+
+def history_fixed():
+    """always-on scenarios of the class: rectangle 300 m x 80 m of azimuth 30 degrees, forwarder 900 m beyond the far end
+    of the long axis; the source is heard 50 m from the centre (inside) and 700 m out on the short axis (outside)"""
+    lat0, lon0 = -337000000, 1510000000
+    base = {"kind": "history", "shape": "rect", "a": 300, "b": 80, "az": 30, "lat0": lat0, "lon0": lon0, "hop": 10}
+    ego = place(lat0, lon0, 30, -1200.0, 0.0)
+    pin, pout = place(lat0, lon0, 30, 50.0, 10.0), place(lat0, lon0, 30, 0.0, 700.0)
+    out = []
+    for tr in ("gac", "gbc"):
+        for ev_type, (pn, po) in (("beacon", (pout, pin)), ("shb", (pin, pout)), ("gbc", (pout, pin)), ("gac", (pin, pout))):
+            # newer reception first, then the packet generated 2 s earlier on the other side of the border
+            out.append(dict(base, transport=tr, lat=ego[0], lon=ego[1],
+                            events=[{"type": ev_type, "dt": 1500, "lat": pn[0], "lon": pn[1], "pai": True}],
+                            pkt={"dt": -500, "lat": po[0], "lon": po[1], "pai": True}))
+        # in order (older beacon first): the packet's vector is the table's vector
+        out.append(dict(base, transport=tr, lat=ego[0], lon=ego[1],
+                        events=[{"type": "beacon", "dt": -2000, "lat": pin[0], "lon": pin[1], "pai": True}],
+                        pkt={"dt": 0, "lat": pout[0], "lon": pout[1], "pai": True}))
+    return out
+
+
+# ---------------------------------------------------------------------------------- (h) ego position: histories of TPV reports
+#
+# Class: the receiving station's position is what its location service reported LAST WITH A POSITION FIX.  The reports
+# (gpsd TPV objects handed to Router.refresh_ego_position_vector) lack every subset of {lat, lon, speed, track}: gpsd
+# leaves out what it has no value for - a report without fix (mode 0/1) has no lat/lon, a report with a fix may have no
+# speed/track.  Judged on the FOLLOWING GBC and GAC packets by the placement oracle: delivered iff the position of the
+# last report that carried lat AND lon (or the position before the history) is inside / at the border of the area -
+# whatever the code does with the other reports (exception or not).  Areas around the true position and around 0 N 0 E.
+# Lean: Props.C07.delivery_after_tpv_history / delivery_without_any_fix; variant before fix C07-F4: speed/track required.
+
+def stable_coord(v):
+    """an integer 1e-7 degree value that survives the float round trip of the code (int(v / 1e7 * 10**7) == v)"""
+    for d in (0, 1, -1, 2, -2, 3):
+        if int(((v + d) / 1e7) * 10 ** 7) == v + d:
+            return v + d
+    return v
+
+
+def tpv_of(r, i):
+    t = {"class": "TPV", "device": "/dev/ttyACM0", "time": "2023-11-14T22:13:%02d.000Z" % (20 + i % 40)}
+    if r.get("mode") is not None:
+        t["mode"] = r["mode"]
+    if r.get("lat") is not None:
+        t["lat"] = r["lat"] / 1e7
+    if r.get("lon") is not None:
+        t["lon"] = r["lon"] / 1e7
+    if r.get("speed"):
+        t["speed"] = 1.25
+    if r.get("track"):
+        t["track"] = 271.5
+    return t
+
+
+_TPV_VARIANT = None
+
+
+def detect_tpv_variant():
+    """variant of the real code (defect C07-F4): is a report WITH lat/lon but without speed/track accepted?"""
+    global _TPV_VARIANT
+    if _TPV_VARIANT is None:
+        B = rs.make_router(2)[0]
+        B.ego_position_vector = lpv(B, 415000000, 21000000)
+        try:
+            B.refresh_ego_position_vector(tpv_of({"lat": 416000000, "lon": 22000000, "mode": 2}, 0))
+        except Exception:  # noqa: BLE001
+            pass
+        _TPV_VARIANT = "optional" if B.ego_position_vector.latitude == 416000000 else "required"
+    return _TPV_VARIANT
+
+
+def egohist_truth(c):
+    """oracle: the station's position = the last report with lat AND lon, else the position it had before"""
+    pos = tuple(c["ego0"])
+    for r in c["reports"]:
+        if r.get("lat") is not None and r.get("lon") is not None:
+            pos = (r["lat"], r["lon"])
+    return pos
+
+
+def egohist_run(c, transport):
+    """(actions, error, real ego (lat, lon) after the history, exception names of the reports)"""
+    code, pkts = originate(dict(c, transport=transport, max_src=10 ** 7))
+    if code != "ACCEPTED" or len(pkts) != 1:
+        raise Infra(f"egohist case: source did not transmit ({code})")
+    B, llB, inds = rs.make_router(2, itsGnMaxGeoAreaSize=10 ** 7, itsGnAreaForwardingAlgorithm=AreaForwardingAlgorithm.SIMPLE)
+    B.ego_position_vector = lpv(B, *c["ego0"])
+    excs = []
+    for i, r in enumerate(c["reports"]):
+        try:
+            B.refresh_ego_position_vector(tpv_of(r, i))
+            excs.append(None)
+        except Exception as e:  # noqa: BLE001
+            excs.append(type(e).__name__)
+    ego = (B.ego_position_vector.latitude, B.ego_position_vector.longitude)
+    acts, err = rx_on(B, llB, inds, pkts[0])
+    return acts, err, ego, excs
+
+
+def _rep_str(r):
+    miss = [k for k in ("lat", "lon") if r.get(k) is None] + [k for k in ("speed", "track") if not r.get(k)]
+    return ("fix" if r.get("lat") is not None and r.get("lon") is not None else "no-fix") + \
+        (f"(mode {r['mode']})" if r.get("mode") is not None else "") + ("-without-" + "/".join(miss) if miss else "")
+
+
+def check_egohist(ctx, cases, jobs=None):
+    lines, recs = [], []
+    variant = detect_tpv_variant()
+    for c in cases:
+        truth = egohist_truth(c)
+        t_in, t_band = _in(c, *truth)
+        s_in, s_band = _in(c, c["src_lat"], c["src_lon"])
+        tag = dict(c, kind="egohist")
+        ego = None
+        for transport in ("gbc", "gac"):
+            acts, err, ego, excs = egohist_run(c, transport)
+            ctx.evals()
+            if t_band or s_band:
+                ctx.cover("tolerance_skips")
+                continue
+            verdict = bool(c.get("src_pai", True)) and s_in
+            if transport == "gac":
+                want = ["deliver"] if t_in else ([] if verdict else ["fwd-nonarea"])
+            else:
+                want = ["deliver", "fwd-area"] if t_in else ([] if verdict else ["fwd-nonarea"])
+            bad = []
+            if err:
+                bad.append(f"receive path raised {err}")
+            elif acts != want:
+                bad.append(f"expected {want or 'no transmission'}, got {acts or 'nothing'}")
+            if bad:
+                ctx.violation(f"{transport} {c['shape']} a={c['a']} b={c['b']} azimuth={c['az']} centre=({c['lat0']},{c['lon0']}): after the position "
+                              f"reports [{', '.join(_rep_str(r) for r in c['reports'])}] the station's last fixed position is {truth} "
+                              f"({'inside' if t_in else 'outside'} the area), the router's ego position is {ego}: " + "; ".join(bad), tag)
+            ctx.cover(f"egohist_{transport}_{'in' if t_in else 'out'}")
+        ctx.cover("egohist_cases")
+        for r, e in zip(c["reports"], excs):
+            miss = "".join(k[0] for k in ("lat", "lon") if r.get(k) is None) + "".join(k[0] for k in ("speed", "track") if not r.get(k))
+            ctx.cover("egohist_report_missing_" + (miss or "nothing") + ("_raised_" + e if e else ""))
+            if r.get("mode") is not None:
+                ctx.cover(f"egohist_report_mode_{r['mode']}")
+        last = c["reports"][-1] if c["reports"] else {}
+        ctx.cover("egohist_last_report_" + ("fix" if last.get("lat") is not None and last.get("lon") is not None else "no_fix"))
+        if abs(c["lat0"]) < 10 ** 5 and abs(c["lon0"]) < 10 ** 5:
+            ctx.cover("egohist_area_around_0N_0E")
+        ctx.nontrivial(("egohist", c["shape"], c["a"], c["b"], c["az"], t_in, s_in, tuple(_rep_str(r) for r in c["reports"])))
+        lines.append(f"ego {1 if variant == 'required' else 0} {c['ego0'][0]} {c['ego0'][1]} " + " ".join(
+            "%s,%s,%d,%d" % ("-" if r.get("lat") is None else r["lat"], "-" if r.get("lon") is None else r["lon"],
+                             1 if r.get("speed") else 0, 1 if r.get("track") else 0) for r in c["reports"]))
+        recs.append((tag, ego))
+    def finish(out):
+        for (tag, ego), mo in zip(recs, out):
+            if ego is not None and mo != f"{ego[0]} {ego[1]}":
+                ctx.mismatch("egohist.position", tag, list(ego), mo)
+    if recs:
+        ctx.sample("egohist", {"case": recs[0][0], "ego_after": recs[0][1], "variant": variant})
+    _model_jobs(ctx, jobs, [ln.rstrip() for ln in lines], finish)
+
+
+def gen_egohist(rng):
+    for _ in range(200):
+        shape, a, b, az, lat0, lon0 = gen_area(rng, False)
+        if abs(lat0) > 800000000 or a < 50 or a > 20000 or (shape != "circle" and (b < 50 or b > 20000)):
+            continue
+        where = rng.choice(["origin", "origin", "anywhere", "anywhere", "anywhere"])
+        if where == "origin":           # an area that contains 0 N 0 E (the place a missing lat/lon read as 0.0 would mean)
+            lat0, lon0 = rng.randrange(-200, 201), rng.randrange(-200, 201)
+        c = {"kind": "egohist", "shape": shape, "a": a, "b": b, "az": az, "lat0": lat0, "lon0": lon0, "hop": rng.choice([2, 10, 255])}
+        if where == "origin" and _in(c, 0, 0) != (True, False):
+            continue
+
+        def spot(want_in):
+            for _ in range(40):
+                p = _place_somewhere(rng, c)
+                p = (stable_coord(p[0]), stable_coord(p[1]))
+                if _in(c, *p) == (want_in, False) and (abs(p[0]) > 10 ** 6 or abs(p[1]) > 10 ** 6 or where != "origin" or not want_in or rng.random() < 0.3):
+                    return p
+            return None
+        far = (stable_coord(rng.randrange(-800000000, 800000001)), stable_coord(rng.randrange(-1700000000, 1700000001)))
+
+        def anywhere(want_in):
+            if not want_in and rng.random() < 0.4 and _in(c, *far) == (False, False):
+                return far
+            return spot(want_in)
+        src = spot(rng.random() < 0.4)
+        ego0 = anywhere(rng.random() < 0.5)
+        if src is None or ego0 is None:
+            continue
+        c["src_lat"], c["src_lon"], c["src_pai"], c["ego0"] = src[0], src[1], rng.random() < 0.6, list(ego0)
+        reps = []
+        for _ in range(rng.choice([1, 2, 2, 3, 4, 6])):
+            has = {k: rng.random() < 0.7 for k in ("lat", "lon", "speed", "track")}
+            kind = rng.choice(["full", "full", "nofix", "nofix", "subset", "fix_no_motion"])
+            if kind == "full":
+                has = dict.fromkeys(has, True)
+            elif kind == "nofix":
+                has.update(lat=False, lon=False)
+            elif kind == "fix_no_motion":
+                has.update(lat=True, lon=True, speed=rng.random() < 0.3, track=False)
+            p = anywhere(rng.random() < 0.5)
+            if p is None:
+                break
+            fix = has["lat"] and has["lon"]
+            reps.append({"lat": p[0] if has["lat"] else None, "lon": p[1] if has["lon"] else None, "speed": has["speed"], "track": has["track"],
+                         "mode": rng.choice([2, 3, 3, None]) if fix else rng.choice([0, 1, 1, 1, None])})
+        if not reps:
+            continue
+        c["reports"] = reps
+        return c
+    return None
+
+
+def egohist_fixed():
+    """always-on scenarios: ellipse 400 m x 150 m at azimuth 75 degrees in the southern / western hemisphere, and the same
+    shape around 0 N 0 E; fix inside, then the fix is lost (mode 1 / mode 0 / no mode, with and without stray attributes)"""
+    out = []
+    for lat0, lon0 in ((-229000000, -431000000), (120, -80)):
+        base = {"kind": "egohist", "shape": "ellipse", "a": 400, "b": 150, "az": 75, "lat0": lat0, "lon0": lon0, "hop": 10, "src_pai": True}
+        pin = tuple(stable_coord(v) for v in place(lat0, lon0, 75, 120.0, -30.0))
+        pout = tuple(stable_coord(v) for v in place(lat0, lon0, 75, 100.0, 900.0))
+        far = (stable_coord(523000000), stable_coord(134000000))
+        src = place(lat0, lon0, 75, -2000.0, 300.0)
+        b2 = dict(base, src_lat=src[0], src_lon=src[1])
+        full = {"speed": True, "track": True, "mode": 3}
+        for lost in ({"lat": None, "lon": None, "speed": False, "track": False, "mode": 1},
+                     {"lat": None, "lon": None, "speed": True, "track": True, "mode": 0},
+                     {"lat": None, "lon": pin[1], "speed": False, "track": True, "mode": None}):
+            out.append(dict(b2, ego0=list(far), reports=[dict(full, lat=pin[0], lon=pin[1]), lost]))
+            out.append(dict(b2, ego0=list(pin), reports=[dict(full, lat=far[0], lon=far[1]), lost, lost]))
+        # a fix without course / speed (standstill), arriving and leaving
+        out.append(dict(b2, ego0=list(pout), reports=[{"lat": pin[0], "lon": pin[1], "speed": True, "track": False, "mode": 2}]))
+        out.append(dict(b2, ego0=list(pin), reports=[{"lat": pout[0], "lon": pout[1], "speed": False, "track": False, "mode": 3},
+                                                     {"lat": None, "lon": None, "speed": False, "track": False, "mode": 1}]))
+    return out
+
+
 # ---------------------------------------------------------------------------------- degenerate semi-axes
 
 def degenerate_cases():
@@ -1114,6 +1605,12 @@ def run(ctx):
         check_source(ctx, ctx.scale(300, 20000))
         check_annexd(ctx, ctx.scale(600, 60000))
         check_trig(ctx)
+        jobs = []        # the two state classes share one driver call
+        check_histories(ctx, [c for c in corp if c.get("kind") == "history"] + history_fixed() +
+                        [c for c in (gen_history(rng) for _ in range(ctx.scale(150, 6000))) if c is not None], jobs)
+        check_egohist(ctx, [c for c in corp if c.get("kind") == "egohist"] + egohist_fixed() +
+                      [c for c in (gen_egohist(rng) for _ in range(ctx.scale(120, 5000))) if c is not None], jobs)
+        run_model_jobs(ctx, jobs)
     # thread scenarios (own clock / patched locks inside TornRun)
     for c in [c for _, c in corpus("C07") if c.get("kind") == "torn"]:
         r = TornRun(c, dsched.Replay(c.get("schedule", [])))
@@ -1141,6 +1638,8 @@ def search(ctx):
             check_packets(ctx, [gen_packet_case(ctx.rng) for _ in range(ctx.scale(4500, 100000))])
             check_source(ctx, ctx.scale(900, 20000))
             check_annexd(ctx, ctx.scale(1800, 60000))
+            check_histories(ctx, history_fixed() + [c for c in (gen_history(ctx.rng) for _ in range(ctx.scale(500, 12000))) if c is not None])
+            check_egohist(ctx, egohist_fixed() + [c for c in (gen_egohist(ctx.rng) for _ in range(ctx.scale(400, 10000))) if c is not None])
         if not ctx.violations:
             for c in torn_fixed():
                 if check_torn(ctx, c, 2, ctx.scale(1200, 12000)):
@@ -1189,6 +1688,10 @@ def replay(ctx, obj):
             r = TornRun(case, dsched.Replay(case.get("schedule", [])))
             print(f"schedule with {dsched.preemptions(r.steps)} pre-emption(s): observed {r.acts}, allowed deliver {sorted(r.allowed[0])} / forward {sorted(r.allowed[1])}")
             p.v.extend(r.bad)
+        elif kind == "history":
+            check_histories(p, [case])
+        elif kind == "egohist":
+            check_egohist(p, [case])
         elif kind == "annexd":
             return _replay_annexd(case)
         elif kind == "trig":
